@@ -47,7 +47,9 @@ ASSUMPTIONS = ["a reconnect re-creates BOTH sessions on their FilePersister file
                "a process restart lets the bytes in flight towards the surviving side arrive first (TCP), its answers are lost",
                "the virtual clock stands still (no heartbeats / test requests); pm_thread; always_seqnum_assign off",
                "application handlers in the canonical form `enforce(seqnum,msg) || msg->process(router)`"]
-RULE = ("schedules over SI/SA (application send on the initiator/acceptor), DA/DI (deliver what is in flight towards the "
+RULE = ("schema: FIX42UTEST plus ten application messages with two-character MsgTypes whose first character is an admin type "
+        "(A0 AD 0X 1Z 2B 3C 4D 5E DD ZZ; derived schema utest2c); messages sent are D/F/8 mixed with these.  "
+        "schedules over SI/SA (application send on the initiator/acceptor), DA/DI (deliver what is in flight towards the "
         "acceptor/initiator), D (deliver until quiet), DROP (in-flight bytes lost, both sides reconnect), RI/RA (process "
         "restart); every schedule ends with D.  quick: all schedules up to length 2, all fault-free ones over {SI,SA,DA,DI} up "
         "to length 4 after the logon exchange, and a random sample of longer ones (up to 12 operations, mostly fault-free "
@@ -57,9 +59,22 @@ RULE = ("schedules over SI/SA (application send on the initiator/acceptor), DA/D
 
 
 def build(tier):
-    built = S.build_sess()                 # for the metadata dump (argument of the model driver)
-    exe = B.harness("h_c21", runtime=None, schema="utest", extra_srcs=["vclock.cpp"])
-    return {"impl": [exe], "driver_args": built["driver_args"], "per_case_timeout": 60}
+    # schema utest2c = /repo's FIX42UTEST + application messages with TWO-character MsgTypes whose first character is
+    # that of an administrative type (A0 AD 0X 1Z 2B 3C 4D 5E DD ZZ): Session::process must send them to
+    # handle_application, not into its one-character admin switch
+    exe = B.harness("h_c21", runtime=None, schema="utest2c", extra_srcs=["vclock.cpp"])
+    # the model driver's schema metadata comes from THIS harness (so the added types are known to the model's decoder)
+    meta = exe + ".meta"
+    if not os.path.exists(meta):
+        env = dict(os.environ, ASAN_OPTIONS="detect_leaks=0")
+        out = subprocess.run([exe, "--meta"], stdout=subprocess.PIPE, stderr=subprocess.PIPE, env=env, timeout=120,
+                             cwd=core.run_dir())
+        if out.returncode != 0 or not out.stdout:
+            raise B.BuildError("h_c21 --meta failed: " + out.stderr.decode(errors="replace")[-2000:])
+        tmp = meta + ".tmp%d" % os.getpid()
+        open(tmp, "wb").write(out.stdout)
+        os.rename(tmp, meta)
+    return {"impl": [exe], "driver_args": [meta], "per_case_timeout": 60}
 
 
 def EXHAUSTIVE(tier):
@@ -113,20 +128,29 @@ def order(k, t="D"):
         f = [(11, "C%d" % k), (21, "1"), (55, "IBM"), (54, "1"), (60, _TS), (40, "1")]
     elif t == "F":
         f = [(41, "O%d" % k), (11, "C%d" % k), (55, "IBM"), (54, "1"), (60, _TS), (9999, "x"), (9991, "y")]
-    else:
+    elif t == "8":
         f = [(37, "O%d" % k), (17, "E%d" % k), (20, "0"), (150, "0"), (39, "0"), (55, "IBM"), (54, "1"), (151, "1.0"),
              (14, "0.0"), (6, "0.0")]
+    else:                       # the two-character application types of schema utest2c: ClOrdID [, Text]
+        f = [(11, "C%d" % k)] + ([(58, "t%d" % k)] if k % 2 else [])
     return S.spec(t, f)
 
 
-def render(ops, rng=None):
-    """ops: list of op names; sends get distinct message ids"""
+TWOCHAR = [t for _, t in B.UTEST2C_MESSAGES]
+
+
+def render(ops, rng=None, types=None):
+    """ops: list of op names; sends get distinct message ids; types: cycle of message types (default: D, or random
+    with a rng: single-character D/F/8 mixed with the two-character types)"""
     out = []
     k = 0
     for o in ops:
         if o in ("SI", "SA"):
             k += 1
-            t = "D" if rng is None else rng.choice(["D", "D", "D", "F", "8"])
+            if types:
+                t = types[(k - 1) % len(types)]
+            else:
+                t = "D" if rng is None else rng.choice(["D", "D", "F", "8"] + TWOCHAR)
             out.append("%s %s" % (o, order(k, t)))
         else:
             out.append(o)
@@ -156,10 +180,10 @@ def gen_cases(rng, tier):
     cases = []
     seen = set()
 
-    def add(ops, cls, r=None):
+    def add(ops, cls, r=None, types=None):
         if not valid(ops):
             return
-        line = render(list(ops) + ["D"], r)
+        line = render(list(ops) + ["D"], r, types)
         if line not in seen:
             seen.add(line)
             cases.append(Case(line, cls))
@@ -170,6 +194,17 @@ def gen_cases(rng, tier):
     for n in range(1, 5):
         for ops in itertools.product(CLEAN, repeat=n):
             add(["D"] + list(ops), "exhaustive-faultfree")
+    # every two-character type, sent by both sides, before and after a drop / a restart of either side on a quiet
+    # connection, mixed with a one-character type
+    for k, t in enumerate(TWOCHAR):
+        fault = ["DROP", "RI", "RA"][k % 3]
+        add(["D", "SI", "SA", "SI", "SA", "D", fault, "D", "SI", "SA", "SA", "SI"], "two-char-types", types=[t, t, "D", t])
+        add(["D", "SA", "SI", "DA", "DI", "SI", "SA"], "two-char-types", types=[t, TWOCHAR[(k + 3) % len(TWOCHAR)], "F"])
+    if thorough:
+        for n in range(1, 4):
+            for ops in itertools.product(["SI", "SA", "DA", "DI", "DROP"], repeat=n):
+                for t in ("AD", "0X", "5E"):
+                    add(["D"] + list(ops), "exhaustive-two-char", types=[t, "D"])
     if thorough:
         for n in range(1, 6):
             for ops in itertools.product(["SA", "SI", "D", "DROP"], repeat=n):
